@@ -108,6 +108,9 @@ def mem_plan(chk, r):
     g = []
     for ln in range(0, 71):
         g.append([f"pbkdf2 id=P{ln} len={ln} count={1 + ln % 3} pw={datav(r, ln % 13)} salt={datav(r, ln % 7)} pl={'es'[ln % 2]} off={ln % 8}"])
+        if ln in (1, 31, 32, 33, 64, 70):
+            # an iteration count of 0: whatever the function makes of it, every output byte is written and defined
+            g.append([f"pbkdf2 id=P{ln}c0 len={ln} count=0 pw={datav(r, 5)} salt={datav(r, 4)} pl={'es'[ln % 2]}"])
     G.append(g)
     for pi, dels in enumerate([['full'], ['short', 'full', 'none'], ['none', 'none'], ['full', 'short', 'short', 'full']]):
         ops = [dict(op='pinit', arg=[0, 5, 40, 0][pi])]
@@ -426,12 +429,19 @@ def check_C07(chk):
         for o, (kl, m1, m2) in enumerate([(5, 3, 20), (64, 16, 1), (100, 17, 33), (0, 0, 40)]):
             ks = datav(r, kl) if kl else '-'
             lines += [f"hinit id=ti{o}a obj={o}", f"hupdate id=ti{o}b obj={o} d={datav(r, m1) if m1 else '-'}", f"hupdate id=ti{o}c obj={o} d={datav(r, m2)}",
-                      f"hfinal id=ti{o}d obj={o}", f"hminit id=ti{o}e obj={o} k={ks}", f"hmupdate id=ti{o}f obj={o} d={datav(r, m2)}",
+                      f"hfinal id=ti{o}d obj={o}",
+                      # second and third use of the same object: reinit after finalize, and in the middle of a message
+                      f"hreinit id=ti{o}d2 obj={o}", f"hupdate id=ti{o}d3 obj={o} d={datav(r, m1 + 3)}", f"hreinit id=ti{o}d4 obj={o}",
+                      f"hupdate id=ti{o}d5 obj={o} d={datav(r, m2)}", f"hfinal id=ti{o}d6 obj={o}",
+                      f"hinit id=ti{o}d7 obj={o}", f"hupdate id=ti{o}d8 obj={o} d={datav(r, 9)}", f"hfree id=ti{o}d9 obj={o}",
+                      f"hminit id=ti{o}e obj={o} k={ks}", f"hmupdate id=ti{o}f obj={o} d={datav(r, m2)}",
+                      f"hmreinit id=ti{o}f2 obj={o} k={ks}", f"hmupdate id=ti{o}f3 obj={o} d={datav(r, m1 + 1)}",
                       f"hmfinal id=ti{o}g obj={o} k={ks}", f"hmfree id=ti{o}h obj={o}",
                       f"hkextract id=ti{o}i obj={o} key={datav(r, 10 + kl)} salt={ks}", f"hkexpand id=ti{o}j obj={o} info=01 len={m1 + 30}",
                       f"hkexpand id=ti{o}k obj={o} info=01 len={m2 + 40}", f"hkfree id=ti{o}l obj={o}"]
         # PRNG: entropy and state are secret; cross the reseed limit (automatic reseed) and reseed explicitly
-        for pi, dels in enumerate([['full'] * 6, ['full', 'short', 'full', 'none', 'full', 'full']]):
+        for pi, dels in enumerate([['full'] * 6, ['full', 'short', 'full', 'none', 'full', 'full'], ['short', 'full', 'short', 'full', 'full', 'full'],
+                                   ['none', 'short', 'full', 'full', 'full', 'full']]):
             ops = [dict(op='pinit', arg=5), dict(op='pgen', arg=32), dict(op='pgen', arg=1056), dict(op='pfeed', arg=9), dict(op='preseed'),
                    dict(op='plimit', arg=32), dict(op='pgen', arg=100), dict(op='preseed'), dict(op='pgen', arg=16)]
             lines.extend(history_lines(r, f"tr{pi}", ops, dels, obj=pi))
@@ -439,7 +449,7 @@ def check_C07(chk):
         for pi, (src, dels) in enumerate([('null', ['full'] * 5), ('plain', ['full', 'full', 'none', 'full', 'full'])]):
             ops = [dict(op='pinit', arg=0, src=src), dict(op='pgen', arg=40), dict(op='preseed'), dict(op='pgen', arg=1056), dict(op='pfeed', arg=3),
                    dict(op='preseed'), dict(op='pgen', arg=16)]
-            lines.extend(history_lines(r, f"ts{pi}", ops, dels, obj=2 + pi))
+            lines.extend(history_lines(r, f"ts{pi}", ops, dels, obj=4 + pi))
         total_calls += len(lines)
         # units that must stay in one process: a PRNG history with its script; everything else is stateless
         units, cur = [], None
@@ -449,7 +459,7 @@ def check_C07(chk):
                 units.append(cur)
             elif re.match(r'(pinit|pgen|pfeed|preseed|plimit|pfree)\b', ln) and cur is not None:
                 cur.append(ln)
-            elif re.match(r'(hupdate|hfinal|hminit|hmupdate|hmfinal|hmfree|hkextract|hkexpand|hkfree)\b', ln) and units:
+            elif re.match(r'(hupdate|hfinal|hreinit|hfree|hminit|hmreinit|hmupdate|hmfinal|hmfree|hkextract|hkexpand|hkfree)\b', ln) and units:
                 units[-1].append(ln)          # stays with the hinit that opened the object history
             else:
                 units.append([ln])
